@@ -82,6 +82,7 @@ func dumpUniverse(u types.Universe) string {
 var c01lastFirst = false
 
 func c01(g *Gen) {
+	c01vendored(g)
 	n := g.N(120, 3000)
 	for i := 0; i < n; i++ {
 		if i%4 == 1 {
